@@ -192,3 +192,77 @@ def rules(ctx):
         ok = any(n["k"] == "bin" and n["op"] in ("&", "&=") and flow.has_src(fn, e, "param#1") for e, n in enumerate(fn.nodes))
         ctx.check(ok, rid2, G + "get_entry#idx&(capacity-1)", "logical position reduced with & (capacity-1)", "get_entry does not reduce the position with the capacity mask", fn.where(), fn=fn)
     chain(ctx, rid2, G + "get", [{"k": "call", "field": "_capacity", "op": "load", "desc": "_capacity.load"}, call("get_entry")], label="capacity-load<index")
+
+
+def stable_slot(ctx):
+    """in-place growth: a reader that maps an index to a slot with a capacity snapshot must re-validate the snapshot after reading the slot"""
+    rid = "WSD.stable-slot"
+    ctx.rule(rid, "growing_circular_array grows in place: grow() moves live indices to other slots and the vacated slots are re-used for new indices. A reader "
+                  "(get) maps its index with a snapshot of the capacity, so the value it read is meaningful only if the capacity is unchanged afterwards: every "
+                  "return of get() is licensed by 'capacity reloaded after the slot read == snapshot', the slot is read with at least acquire and written by put() "
+                  "with at least release (otherwise a value stored after the growth can be observed together with the old capacity)")
+    grows = ctx.facts.shapes(G + "grow")
+    inplace = any(flow.find(fn, {"k": "call", "field": "_capacity", "op": "store"}) and [e for b, i, e, n in fn.events() if fn.atomic(e) and fn.atomic(e)["op"] == "store" and "_data" in fn.atomic(e)["field"]]
+                  for fn in grows)
+    if not grows:
+        ctx.broken.append("growing_circular_array::grow not instantiated")
+        return
+    if not inplace:
+        ctx.ok(rid, G + "grow#in-place", "grow() does not move entries in place", "", nontrivial=False)
+        return
+    CAP = {"k": "call", "field": "_capacity", "op": "load"}
+
+    def weakest_ok(orders, need):
+        # orders: recorded order strings of the slot access; need: 'acquire' / 'release'
+        ok_set = {"acquire": ("acquire", "acq_rel", "seq_cst"), "release": ("release", "acq_rel", "seq_cst")}[need]
+        for o in orders:
+            alts = o[5:-1].split("|") if o.startswith("cond(") else [o]
+            for a_ in alts:
+                if a_ in ok_set:
+                    continue
+                if a_.startswith("param:"):
+                    continue   # caller supplied: checked through the upgrade test below
+                return False
+        return True
+
+    def upgrades(fn, param, to):
+        """the order parameter is raised before use: an assignment `order = memory_order_<to>` guarded by a test of that parameter, or a conditional expression"""
+        for b, i, e, n in fn.events():
+            if n["k"] == "bin" and n["op"] == "=" and fn.nodes[fn.kids(e)[0]].get("name") == param and to in fn.expr(fn.kids(e)[1]):
+                return True
+        return False
+
+    for fn in flow._shapes(ctx, G + "get"):
+        slots = [e for b, i, e, n in fn.events() if fn.atomic(e) and fn.atomic(e)["kind"] == "load" and not fn.atomic(e)["field"].endswith("_capacity")]
+        caps = flow.find(fn, CAP)
+        rets = [r for r in flow.find(fn, {"k": "return"}) if fn.kids(r)]
+        inst = G + "get"
+        if not slots or not caps or not rets:
+            ctx.broken.append("growing_circular_array::get: slot read / capacity load / return not found")
+            continue
+        both_caps = flow.cmp_want(lambda f, x: flow.has_src(f, x, "load:_capacity"), lambda f, x: flow.has_src(f, x, "load:_capacity"))
+        bad = None
+        for r in rets:
+            ok, path, n = flow.only_via_want(fn, r, both_caps)
+            reval = any(fn.before(s, c) and fn.before(c, r) for s in slots for c in caps)
+            if not (ok and n > 0 and reval):
+                bad = r
+        ctx.check(bad is None, rid, inst + "#revalidate-capacity", "every return is licensed by a capacity reload (after the slot read) that equals the snapshot",
+                  "get() returns the value of the slot selected with a capacity snapshot without re-validating the capacity after the read: a thief that loaded the old "
+                  "capacity reads, after a concurrent in-place grow(), a slot the owner has already re-used for a newer index - it steals the wrong item (one item lost, "
+                  "another one delivered twice)", fn.where(bad) if bad is not None else fn.where(), fn=fn)
+        o_ok = all(weakest_ok(fn.atomic(s)["orders"], "acquire") for s in slots) and all(
+            not any(o.startswith("param:") for o in fn.atomic(s)["orders"]) or upgrades(fn, fn.atomic(s)["orders"][0][6:], "acquire") for s in slots)
+        ctx.check(o_ok, rid, inst + "#slot-read-acquire", "the slot is read with at least acquire order",
+                  "the slot is read with an order that can be relaxed: a value stored after a concurrent grow() can be observed while the capacity reload still returns the "
+                  "old capacity", fn.where(slots[0]), fn=fn)
+    for fn in flow._shapes(ctx, G + "put"):
+        st = [e for b, i, e, n in fn.events() if fn.atomic(e) and fn.atomic(e)["op"] == "store" and not fn.atomic(e)["field"].endswith("_capacity")]
+        if not st:
+            ctx.broken.append("growing_circular_array::put: slot store not found")
+            continue
+        o_ok = all(weakest_ok(fn.atomic(s)["orders"], "release") for s in st) and all(
+            not any(o.startswith("param:") for o in fn.atomic(s)["orders"]) or upgrades(fn, fn.atomic(s)["orders"][0][6:], "release") for s in st)
+        ctx.check(o_ok, rid, G + "put#slot-store-release", "the slot is written with at least release order",
+                  "put() can store the item with relaxed order: the store is not ordered after the capacity publication of a preceding grow(), so the re-validation in get() "
+                  "cannot detect that the slot was re-used", fn.where(st[0]), fn=fn)
